@@ -1,9 +1,17 @@
 package metadata
 
-import "github.com/multiformats/go-multicodec"
+import (
+	"github.com/multiformats/go-multicodec"
+	"github.com/multiformats/go-varint"
+)
 
 func HTTPV1() Protocol {
+	// The payload of an Unknown is its complete encoding: the protocol ID
+	// followed by the length of the (empty) protocol data.
+	payload := varint.ToUvarint(uint64(multicodec.Http))
+	payload = append(payload, varint.ToUvarint(0)...)
 	return &Unknown{
-		Code: multicodec.Http,
+		Code:    multicodec.Http,
+		Payload: payload,
 	}
 }
